@@ -9,7 +9,7 @@ Verdict logic (DESIGN.md section 3):
   5 ORACLE          property statements evaluated on the implementation alone (probe *.oracle lines)
   6 REPORT          VIOLATION / KNOWN-FINDING lines, evidence/<ID>.json, replays/<...>.json
 """
-import os, sys, json, re, subprocess, time, hashlib, shutil, glob
+import os, sys, json, re, subprocess, time, hashlib, shutil, glob, resource
 from concurrent.futures import ThreadPoolExecutor
 
 VERIF = os.path.dirname(os.path.dirname(os.path.abspath(__file__)))
@@ -22,9 +22,10 @@ DRIVER = os.path.join(LEAN, '.lake', 'build', 'bin', 'hvdriver')
 ALLOWED_AXIOMS = {'propext', 'Classical.choice', 'Quot.sound'}
 FORBIDDEN = re.compile(r'\b(sorry|admit|native_decide|bv_decide|implemented_by|unsafe)\b|^\s*axiom\s|maxHeartbeats\s+0\b')
 NCPU = os.cpu_count() or 4
+PROBE_TIMEOUT = [300]   # seconds per shard; bin/check raises it for the thorough tier
 
 GOENV = dict(os.environ, GOFLAGS='-mod=mod', GOPROXY='off', GOSUMDB='off', GOTOOLCHAIN='local',
-             CGO_CFLAGS='-w', GOMEMLIMIT='6GiB')
+             CGO_CFLAGS='-w', GOMEMLIMIT='4GiB')
 
 
 def log(*a):
@@ -198,10 +199,16 @@ def run_shard(spec, seed, count, tag):
     res = dict(dir=d, ops=ops, impl=impl, model=model, seed=seed, count=count, probe_rc=None, driver_rc=None, err='')
     exe = os.path.join(BIN, spec['probe'])
     t0 = time.time()
+    if os.path.exists(impl + '.current'):
+        os.remove(impl + '.current')
+
+    def limits():
+        # a runaway real-code loop must not take the machine down: 10 GiB address space per probe
+        resource.setrlimit(resource.RLIMIT_AS, (10 << 30, 10 << 30))
     try:
         r = subprocess.run([exe, str(seed), str(count), ops, impl] + [str(x) for x in spec.get('extra', [])],
                            cwd=d, env=GOENV, stdout=subprocess.PIPE, stderr=subprocess.PIPE,
-                           timeout=spec.get('timeout', 3000))
+                           timeout=spec.get('timeout', PROBE_TIMEOUT[0]), preexec_fn=limits)
         res['probe_rc'] = r.returncode
         if r.returncode != 0:
             res['err'] = (r.stderr.decode(errors='replace')[-3000:] + r.stdout.decode(errors='replace')[-1000:])
@@ -209,6 +216,8 @@ def run_shard(spec, seed, count, tag):
         res['probe_rc'] = -9
         res['err'] = 'probe timeout'
     res['probe_s'] = time.time() - t0
+    if res['probe_rc'] != 0 and os.path.exists(impl + '.current'):
+        res['current_case'] = open(impl + '.current').read().strip()
     if spec.get('fam') is not None and os.path.exists(ops):
         t0 = time.time()
         with open(ops, 'rb') as fin, open(model, 'wb') as fout:
